@@ -509,7 +509,10 @@ func checkCorrupted(t TB, c *content, kind blobKind, orig, corrupted []byte, wha
 	if level == 0 {
 		cls = fmt.Sprintf("corrupt-%s/length", blobName[kind])
 	}
-	evid.Case(cls, nontrivial, keyOf(orig, what), nil)
+	evid.CaseFn(cls, nontrivial, keyOf(orig, what), func() any {
+		return map[string]any{"blob_kind": blobName[kind], "corruption": what, "envelope_level": level, "original_len": len(orig),
+			"corrupted_blob": evid.Hex(corrupted), "files": c.nFiles(), "mechanisms": c.nMech()}
+	})
 	switch {
 	case rejected:
 		st.rejected++
@@ -529,6 +532,37 @@ func checkCorrupted(t TB, c *content, kind blobKind, orig, corrupted []byte, wha
 		r["corrupted_blob"] = hx(corrupted)
 		evid.Fail(t, "corruption", r, "%s blob with %s (nesting level %d) is accepted with different content: %s", blobName[kind], what, level, diff)
 	}
+}
+
+// abbreviate shortens the hex strings of a description for the evidence samples.
+func abbreviate(m map[string]any) map[string]any {
+	if fs, ok := m["files"].(map[string]string); ok {
+		out := map[string]string{}
+		for k, v := range fs {
+			if len(v) > 128 {
+				v = fmt.Sprintf("%s...(%d bytes)", v[:96], len(v)/2)
+			}
+			out[k] = v
+		}
+		m["files"] = out
+	}
+	for _, k := range []string{"ca", "pace", "aa"} {
+		switch e := m[k].(type) {
+		case map[string]string:
+			for f, v := range e {
+				if len(v) > 128 {
+					e[f] = fmt.Sprintf("%s...(%d bytes)", v[:96], len(v)/2)
+				}
+			}
+		case map[string]any:
+			for f, v := range e {
+				if s, ok := v.(string); ok && len(s) > 128 {
+					e[f] = fmt.Sprintf("%s...(%d bytes)", s[:96], len(s)/2)
+				}
+			}
+		}
+	}
+	return m
 }
 
 func keyOf(blob []byte, what string) string {
@@ -741,7 +775,7 @@ func TestRoundTrip(t *testing.T) {
 		case total > 10000:
 			evid.Count("doc-10-60KB", 1)
 		}
-		evid.Case("roundtrip/"+contentClass(c), c.nFiles() >= 3 && c.nMech() > 0, contentKey(c), nil)
+		evid.CaseFn("roundtrip/"+contentClass(c), c.nFiles() >= 3 && c.nMech() > 0, contentKey(c), func() any { return abbreviate(c.describe()) })
 		checkMagicVersion(rt, c, blobs)
 	})
 }
